@@ -19,7 +19,15 @@ RULE = ("operation sequences (set_field, e[k]=v, pop, del e[k]; then a probe blo
         "alone), and falsy values 0 / False / [] / '' / None: all mutator sequences to depth 2 / 3 from three start "
         "entries made of such objects and random programs as above, which also edit the list handed out by e.fields "
         "(append, insert, replace, delete, reverse) or assign e.fields, after which fields_dict, items(), get, in and [] must describe "
-        "exactly what e.fields shows. distinct = distinct (start "
+        "exactly what e.fields shows; SIZE: entries with 256, 257, 258, 300, 1000, 1025 and a few other / random numbers of "
+        "fields (up to ~1200 quick / ~3000 thorough; parsed from one @article, constructed with str and int values, or "
+        "grown key by key with set_field / item assignment from 0, 1, 250, 255, 256 fields): the seven operations and probe "
+        "blocks on keys at both ends, in the middle, at positions 254..257 and on absent keys (f<n>, F0, f, 'f0 ', '', zz, a) "
+        "(entries up to 300 fields also against the Coq model), and programs of single operations, runs of additions "
+        "and removals that cross 256 / 512 / 1024 fields in both directions (membership / get / length asked before and "
+        "after each one near the thresholds), twins of large entries and Field objects moved between them, every entry "
+        "compared with its reference dict after every step (views in full, keyed accessors on the keys named above). "
+        "distinct = distinct (start "
         "entry, operation list) or (block, perturbation); non-trivial = at least one call replaces, removes or misses an "
         "existing key (several entries: a key whose Field object is also held by another entry), or the pair differs in "
         "exactly one attribute / is a copy; odd streams: an operation addresses a key bound to an object of a Field subclass, or "
@@ -29,6 +37,8 @@ TRUSTED = ["field identity is observed through unique start_line tags given to e
            "entries): they are judged by the Python oracle alone",
            "Field subclasses overriding __len__/__bool__/__eq__/__hash__ and direct edits of the list handed out by "
            "e.fields have no counterpart in the Coq model either (odd-* streams, Python oracle alone)",
+           "entries with more than 300 fields (big-ops stream) and the big-multi stream are not sent to the Coq model (the "
+           "extracted model needs seconds per such case): Python oracle alone",
            "values containing dicts or foreign objects are outside the executable equality model (skipped for the model "
            "comparison, still checked by the Python oracle)"]
 ASSUMPTIONS = ["str keys; CPython dict preserves insertion order (the reference mapping of the oracle is a dict)"]
@@ -157,6 +167,98 @@ def generate(rng, tier):
     cases += multi_random(rng, tier)
     # 7. the same with Field objects of unusual types, falsy values and direct edits of the list handed out by e.fields
     cases += multi_random(rng, tier, odd=True)
+    # 8. SIZE: entries with hundreds / thousands of fields (parsed, constructed, grown and shrunk across 256 / 512 / 1024)
+    cases += big_cases(rng, tier)
+    return cases
+
+
+# ------------------------------------------------------------------ large entries
+# The property quantifies over all entries; nothing in it depends on the number of fields.  CPython does (small ints up
+# to 256 are shared objects, larger ones are not; dicts and lists are re-allocated at size thresholds), so a handful of
+# entries with 257 and more fields go through the same operations against the same reference dict.
+# {"n": N, "via": "parsed" | "built"}: the entry @article{key, f0 = {v0}, ..., f<N-1> = {v<N-1>}} parsed without
+# middlewares, or constructed from Field("f<i>", "v<i>" / the int i, line i + 1).
+BIG_FIXED = [257, 300, 1000, 256, 258, 1025]          # always present; then sizes drawn from BIG_MORE / at random
+BIG_MODEL_MAX = 300          # larger entries are not sent to the Coq model (big-ops stream), see impl_ops
+BIG_MORE = [255, 259, 384, 511, 512, 513, 683, 1023, 1024, 1366, 2049]
+
+
+def big_spec(n, via):
+    return {"n": n, "via": via}
+
+
+def big_entry(spec):
+    from bibtexparser.model import Entry, Field
+    n = spec["n"]
+    if spec["via"] == "parsed":
+        bib = "@article{key,\n" + "".join("  f%d = {v%d},\n" % (i, i) for i in range(n)) + "}\n"
+        blocks = parsed_blocks(bib)
+        assert len(blocks) == 1 and type(blocks[0]) is Entry and len(blocks[0].fields) == n, "generator: big entry did not parse"
+        return blocks[0]
+    return Entry("book", "big%d" % n, [Field("f%d" % i, ("v%d" % i) if i % 2 == 0 else i, i + 1) for i in range(n)], start_line=0, raw=None)
+
+
+def big_keys(rng, n):
+    """(keys present at the start, keys absent at the start) worth addressing in an entry f0 .. f<n-1>"""
+    pos = sorted({i for i in (0, 1, n // 2, 254, 255, 256, 257, n - 2, n - 1, rng.randrange(max(n, 1))) if 0 <= i < n})
+    present = ["f%d" % i for i in pos]
+    absent = ["f%d" % n, "f%d" % (n + 1), "F0", "f", "f0 ", "zz", "a", "", "f%d" % (n + rng.randint(2, 2000))]
+    return present, absent
+
+
+def big_cases(rng, tier):
+    cases = []
+    quick = tier == "quick"
+    sizes = list(BIG_FIXED) + rng.sample(BIG_MORE[:-2] if quick else BIG_MORE, 1 if quick else len(BIG_MORE))
+    sizes += [rng.randint(259, 1200 if quick else 3000) for _ in range(1 if quick else 12)]
+    # a. one entry, the seven operations, compared with the Coq model as well
+    for rep in range(1 if quick else 4):
+        for i, n in enumerate(sizes):
+            present, absent = big_keys(rng, n)
+            keys = present + absent
+            ops = []
+            for j in range(rng.randint(2, 8)):
+                c = rng.choice([0, 1, 2, 3, 4, 5, 5, 6])
+                ops.append(mk_op(c, rng.choice(keys), j))
+            # every present key is probed before it may have been removed, every absent key before it may have been added
+            ops = (probe_ops(rng.sample(present, 2) + rng.sample(absent, 2)) + ops
+                   + probe_ops(present[-1:] + rng.sample(present[:-1], 3) + absent[:1] + rng.sample(absent[1:], 3)))
+            cases.append({"stream": "big-ops", "input": {"big": big_spec(n, "parsed" if (i + rep) % 2 == 0 else "built"), "ops": ops}})
+    # b. entries that grow and shrink across the thresholds, twins of large entries, Field objects moved between them
+    for rep in range(1 if quick else 4):
+        for i, n in enumerate(sizes):
+            via = ("built", "parsed", "grown")[(i + rep) % 3]
+            if via == "grown":
+                start = rng.choice([0, 1, 250, 255, 256, n - 1 if n < 1200 else 1020])
+                start = min(start, n)
+                big = [big_spec(start, rng.choice(["built", "parsed"]))]
+                steps = [["grow", 0, n - start, rng.choice(["set_field", "setitem", "mixed"])]]
+                cur = n
+            else:
+                big = [big_spec(n, via)]
+                steps = []
+                cur = n
+            ne = 1
+            present, absent = big_keys(rng, n)
+            keys = present + absent
+            for j in range(rng.randint(3, 10)):
+                p = rng.random()
+                if p < 0.15:
+                    cnt = rng.choice([1, 2, 3, 10, 45])
+                    steps.append(["grow", rng.randrange(ne), cnt, rng.choice(["set_field", "setitem", "mixed"])])
+                elif p < 0.3:
+                    cnt = rng.choice([1, 2, 3, 10, 45, max(1, cur - 256), max(1, cur - 255)])
+                    steps.append(["shrink", rng.randrange(ne), cnt, rng.choice(["pop-front", "pop-back", "del-front", "del-back", "pop-middle"])])
+                elif p < 0.38 and ne < 3:
+                    steps.append(["twin", rng.randrange(ne)])
+                    ne += 1
+                elif p < 0.48 and ne > 1:
+                    t, s_ = rng.sample(range(ne), 2)
+                    steps.append(["xfer", t, s_, rng.choice(keys)])
+                else:
+                    c = rng.choice([0, 1, 2, 3, 4, 5, 5, 6])
+                    steps.append(["op", rng.randrange(ne), mk_op(c, rng.choice(keys), j)])
+            cases.append({"stream": "big-multi", "input": {"multi": "big", "big": big, "absent": absent, "steps": steps}})
     return cases
 
 
@@ -482,6 +584,8 @@ def impl_ops(case):
         blocks = parsed_blocks(inp["bib"])
         e = blocks[inp["index"] % len(blocks)]
         assert type(e) is Entry, "generator: parsed block %d is not an entry" % inp["index"]
+    elif "big" in inp:
+        e = big_entry(inp["big"])
     else:
         e = build_entry(inp["entry"])
     etype, ekey = e.entry_type, e.key
@@ -610,25 +714,29 @@ def impl_ops(case):
             want = list(ref.values())
             if len(fs) != len(want) or not all((f is w) if not isinstance(w, tuple) else
                                                (f.key == w[1] and same_value(f.value, w[2])) for f, w in zip(fs, want)):
-                ok, detail = False, where + "fields are %r, the mapping holds %r" % ([(f.key, f.value) for f in fs], list(ref))
+                ok, detail = False, where + "fields are %r, the mapping holds %r" % (brief([(f.key, f.value) for f in fs]), brief(ref))
             else:
                 fd = e.fields_dict
                 if list(fd.keys()) != [f.key for f in fs] or not all(a is b for a, b in zip(fd.values(), fs)):
-                    ok, detail = False, where + "fields_dict %r does not list the fields %r" % (list(fd), [f.key for f in fs])
+                    ok, detail = False, where + "fields_dict %r does not list the fields %r" % (brief(fd), brief([f.key for f in fs]))
                 its = e.items()
                 wi = [("ENTRYTYPE", etype), ("ID", ekey)] + [(f.key, f.value) for f in fs]
                 if len(its) != len(wi) or not all(a[0] == b[0] and a[1] is b[1] for a, b in zip(its, wi)):
-                    ok, detail = False, where + "items() %r does not list the fields" % (its,)
+                    ok, detail = False, where + "items() %r does not list the fields" % (brief(its),)
             if ok and (code in MUTATORS or last):
                 msg = log.altered()
                 if msg:
                     ok, detail = False, where + msg
     rec = {"sx_in": sx_in, "sx_out": implutil.r_ok(outs), "oracle": {"ok": ok, "detail": detail},
            "key": json.dumps(inp, sort_keys=True), "nontrivial": bool(interesting),
-           "tags": ["ops", "hyp" if hyp else "outside-hypothesis"],
+           "tags": ["ops", "hyp" if hyp else "outside-hypothesis"] + (["ops:more-than-256-fields"] if len(init) > 256 else []),
            "summary": repr([(f.key, f.value) for f in e.fields])[:200]}
     if unmodelled:
         rec["skip"] = True
+    if len(init) > BIG_MODEL_MAX:
+        # the extracted model needs seconds for entries of this size: judged by the Python oracle alone
+        rec["sx_in"] = rec["sx_out"] = None
+        rec.pop("skip", None)
     return rec
 
 
@@ -664,6 +772,12 @@ class FieldLog:
 FIVE = ("the default handed to get",)
 
 
+def brief(xs):
+    """a long list shortened for a complaint"""
+    xs = list(xs)
+    return xs if len(xs) <= 16 else xs[:5] + ["... %d more ..." % (len(xs) - 10)] + xs[-5:]
+
+
 def entry_vs_dict(e, ref, log, etype, ekey, Field, absent):
     """Everything entry e reports equals what its reference dict ref (key -> Field object) holds; None or a complaint."""
     fs = e.fields
@@ -671,27 +785,38 @@ def entry_vs_dict(e, ref, log, etype, ekey, Field, absent):
     shown = [(f.key, f.value) if isinstance(f, Field) else f for f in fs]
     held = [log.content(w)[:2] for w in want]
     if len(fs) != len(want) or not all(f is w for f, w in zip(fs, want)):
-        return "fields are %r, the mapping holds %r%s" % (shown, held, " (other Field objects than the ones stored)" if shown == held else "")
+        return "fields are %r, the mapping holds %r%s" % (brief(shown), brief(held),
+                                                        " (other Field objects than the ones stored)" if shown == held else "")
     if not all(log.intact(f) for f in fs):
-        return "fields read %r, the mapping holds %r" % (shown, held)
+        return "fields read %r, the mapping holds %r" % (brief(shown), brief(held))
     fd = e.fields_dict
     if list(fd.keys()) != list(ref.keys()) or not all(a is b for a, b in zip(fd.values(), want)):
-        return "fields_dict %r, the mapping holds %r" % ([(k, f.value) for k, f in fd.items()], held)
+        return "fields_dict %r, the mapping holds %r" % (brief([(k, f.value) for k, f in fd.items()]), brief(held))
     its = e.items()
     wi = [("ENTRYTYPE", etype), ("ID", ekey)] + held
     if len(its) != len(wi) or not all(type(a) is tuple and len(a) == 2 and a[0] == b[0] and same_value(a[1], b[1])
                                       for a, b in zip(its, wi)):
-        return "items() %r, the mapping gives %r" % (its, wi)
-    for k, w in ref.items():
-        if e.get(k) is not w or e.get(k, FIVE) is not w:
+        return "items() %r, the mapping gives %r" % (brief(its), brief(wi))
+    ks = list(ref)
+    if len(ks) > 48:
+        # large mapping: the views above were compared in full; the keyed accessors are asked about the keys at both
+        # ends, in the middle, around position 256 and about every key an operation of the case addresses
+        n = len(ks)
+        at = {i for i in (0, n // 2, 255, 256, 257, n - 2, n - 1) if 0 <= i < n}
+        ks = [k for i, k in enumerate(ks) if i in at] + [k for k in absent if k in ref]
+    for k in ks:
+        w = ref[k]
+        if e.get(k, FIVE) is not w or (len(ks) == len(ref) and e.get(k) is not w):
             return "get(%r) returned %r, the mapping holds %r" % (k, e.get(k), log.content(w))
         if k not in e:
             return "%r in entry is false, the mapping holds %r" % (k, log.content(w))
         if not same_value(e[k], log.content(w)[1]):
             return "[%r] is %r, the mapping holds %r" % (k, e[k], log.content(w))
+    large = len(ref) > 48
     for k in absent:
-        if k not in ref and (k in e or e.get(k) is not None or e.get(k, FIVE) is not FIVE or not same_value(e.get(k, 0), 0)):
-            return "%r is reported present (get: %r), the mapping does not hold it" % (k, e.get(k))
+        if k not in ref and (k in e or e.get(k, FIVE) is not FIVE or (
+                not large and (e.get(k) is not None or not same_value(e.get(k, 0), 0)))):
+            return "%r is reported present (in: %r, get: %r), the mapping does not hold it" % (k, k in e, e.get(k))
     if e["ENTRYTYPE"] != etype or e["ID"] != ekey:
         return "ENTRYTYPE/ID lookups give %r/%r, the entry has %r/%r" % (e["ENTRYTYPE"], e["ID"], etype, ekey)
     return None
@@ -709,6 +834,8 @@ def impl_multi(case):
             e = blocks[ix % len(blocks)]
             assert type(e) is Entry, "generator: parsed block %d is not an entry" % ix
             entries.append(e)
+    elif "big" in inp:
+        entries = [big_entry(sp) for sp in inp["big"]]
     else:
         built = []
         for st in inp["entries"]:
@@ -726,7 +853,9 @@ def impl_multi(case):
     ok, detail = True, ""
     shared_hit = False
     odd_hit = False          # an operation addressed a key bound to an object of a Field subclass / the caller edited e.fields
-    absent = sorted(set(POOL + ["zz"] + [st[2][1] if st[0] == "op" else st[3] for st in inp["steps"] if st[0] in ("op", "xfer")]))
+    big_hit = False          # an entry with more than 256 fields was operated on
+    absent = sorted(set(POOL + ["zz"] + inp.get("absent", [])
+                        + [st[2][1] if st[0] == "op" else st[3] for st in inp["steps"] if st[0] in ("op", "xfer")]))
     tags = ["multi", "multi:" + inp["multi"]]
 
     def fail(n, step, msg):
@@ -758,6 +887,81 @@ def impl_multi(case):
                     ok, detail = fail(n, step, "entry %d: set_field gave %r" % (t, r[-1]))
                     break
                 refs[t][k] = f
+        elif step[0] in ("grow", "shrink"):
+            # many additions of new keys / removals of present keys in a row, each one with the membership, get and
+            # length the reference dict shows before and after; the full comparison follows below, after the last one
+            t, cnt, how = step[1] % len(entries), step[2], step[3]
+            acted = t
+            e, ref = entries[t], refs[t]
+            msg = None
+            for i in range(cnt):
+                # the questions before and after are asked for the first and last few, around 256 / 512 / 1024 fields
+                # and for every 29th; the others are just added / removed (the full comparison below sees them all)
+                sz = len(ref)
+                ask = i < 3 or cnt - i <= 3 or i % 29 == 0 or any(abs(sz - m) <= 4 for m in (0, 256, 512, 1024, 2048))
+                if step[0] == "grow":
+                    k = "g%d_%d" % (n, i)
+                    f = Field(k, "n%d" % i if i % 3 else i, 1000 * (n + 1) + i)
+                    by_field = how == "set_field" or (how == "mixed" and i % 2 == 0)
+                    if by_field:
+                        log.see(f, "passed to set_field in step %d (addition %d)" % (n, i))
+
+                    def do_add():
+                        before = (k in e, e.get(k), e.get(k, FIVE)) if ask else (False, None, FIVE)
+                        if by_field:
+                            e.set_field(f)
+                        else:
+                            e[k] = f.value
+                        fs = e.fields
+                        return before, ((k in e, e.get(k), len(fs)) if ask else (True, fs[-1] if fs else None, len(fs)))
+                    r = implutil.guarded(do_add)
+                    if r[0] == "exc":
+                        msg = "adding %r raised %s" % (k, r[2])
+                        break
+                    before, after = r[1]
+                    if before[0] is not False or before[1] is not None or before[2] is not FIVE:
+                        msg = "before %r was added to the %d fields: in -> %r, get -> %r, get with default -> %r; the mapping does not hold the key" % (
+                            k, len(ref), before[0], before[1], before[2])
+                        break
+                    g = after[1]
+                    if after[0] is not True or after[2] != len(ref) + 1 or not (
+                            (g is f) if by_field else (isinstance(g, Field) and g.key == k and same_value(g.value, f.value))):
+                        msg = "after %r was added to the %d fields: in -> %r, get -> %r, %d fields" % (k, len(ref), after[0], g, after[2])
+                        break
+                    log.see(g, "created by the item assignment of step %d (addition %d)" % (n, i))
+                    ref[k] = g
+                else:
+                    if not ref:
+                        break
+                    ks = list(ref)
+                    k = ks[0] if how.endswith("front") else ks[-1] if how.endswith("back") else ks[len(ks) // 2]
+                    w = ref[k]
+
+                    def do_remove():
+                        before = (k in e, e.get(k)) if ask else (True, w)
+                        if how.startswith("pop"):
+                            got = e.pop(k, FIVE)
+                        else:
+                            del e[k]
+                            got = w
+                        return before, got, ((k in e, e.get(k), e.get(k, FIVE)) if ask else (False, None, FIVE)) + (len(e.fields),)
+                    r = implutil.guarded(do_remove)
+                    if r[0] == "exc":
+                        msg = "removing %r raised %s" % (k, r[2])
+                        break
+                    before, got, after = r[1]
+                    if before[0] is not True or before[1] is not w:
+                        msg = "before %r was removed from the %d fields: in -> %r, get -> %r; the mapping holds the key" % (
+                            k, len(ref), before[0], before[1])
+                        break
+                    if got is not w or after[0] is not False or after[1] is not None or after[2] is not FIVE or after[3] != len(ref) - 1:
+                        msg = "removing %r from the %d fields gave %r; afterwards in -> %r, get -> %r, %d fields" % (
+                            k, len(ref), got, after[0], after[1], after[3])
+                        break
+                    del ref[k]
+            if msg:
+                ok, detail = fail(n, step, "entry %d: %s" % (t, msg))
+                break
         elif step[0] == "edit":
             # the caller edits the list e.fields handed out (or assigns e.fields).  What such an edit does to the entry
             # is not the property's business; that fields, fields_dict, items(), get, in and [] afterwards all describe
@@ -864,15 +1068,16 @@ def impl_multi(case):
                     good = r[0] == "exc" and r[2] == "KeyError"
             if not good:
                 ok, detail = fail(n, step, "entry %d: the call gave %r, the mapping disagrees (it holds %r)" % (
-                    t, r[-1], [log.content(w)[:2] for w in ref.values()]))
+                    t, r[-1], brief([log.content(w)[:2] for w in ref.values()])))
                 break
+        big_hit |= acted is not None and len(refs[acted]) > 256
         # ---- after every step: every entry against its own dict, and every Field object ever seen against its content
         for j, e in enumerate(entries):
             try:
                 msg = entry_vs_dict(e, refs[j], log, heads[j][0], heads[j][1], Field, absent)
             except Exception as x:  # noqa: BLE001 - a read accessor that raises is a finding, not a harness error
                 msg = "a read accessor (fields, fields_dict, items, get, in, []) raised %s: %s; the mapping holds %r" % (
-                    type(x).__name__, x, [log.content(w)[:2] for w in refs[j].values()])
+                    type(x).__name__, x, brief([log.content(w)[:2] for w in refs[j].values()]))
             if msg:
                 who = "entry %d" % j if j == acted else "entry %d (no operation was applied to it in this step)" % j
                 ok, detail = fail(n, step, who + ": " + msg)
@@ -887,7 +1092,9 @@ def impl_multi(case):
         tags.append("multi:shared-key-written-or-removed")
     if odd_hit:
         tags.append("multi:key-bound-to-field-subclass-object-or-list-edited")
-    return {"sx_in": None, "sx_out": None, "oracle": {"ok": ok, "detail": detail}, "nontrivial": bool(shared_hit or odd_hit),
+    if big_hit:
+        tags.append("multi:entry-with-more-than-256-fields-operated-on")
+    return {"sx_in": None, "sx_out": None, "oracle": {"ok": ok, "detail": detail}, "nontrivial": bool(shared_hit or odd_hit or big_hit),
             "key": json.dumps(inp, sort_keys=True), "tags": tags,
             "summary": repr([[(f.key, f.value) for f in e.fields] for e in entries])[:200]}
 
